@@ -37,7 +37,10 @@ CHECKS = {
                        {"name": "sudoku-exh", "suite": "sudoku", "thorough": ["--exh"]}],
             "assumptions": ["the general solver is not re-modelled here: its answer is an input of the Sudoku model (GenAnswer) and C18_end_to_end is parametric in a general solver satisfying the C01-C03 statements",
                             "each solve is capped at 3000 engine iterations through hook H6 (deterministic budget); `limit-as-none` is the recorded finding for the real 60 s limit"]},
-    "C13": {"suites": [VIEWS, VIEWS_EXH], "assumptions": INT_ASSUME, "exhaustive_in_thorough": True},
+    "C13": {"suites": [VIEWS, VIEWS_EXH, FLOAT], "assumptions": INT_ASSUME + ["float views: exact affine-form oracle on the implementation and bit-exact correspondence with the float model; the theorems cover integer views"], "exhaustive_in_thorough": True},
+    "C17": {"suites": [{"name": "malformed", "suite": "malformed", "quick": ["--count", 1200], "thorough": ["--count", 12000]}, API],
+            "assumptions": ["absence of panics over all call sequences is not provable from a model of the whole API surface: the theorems cover the index/arithmetic sites of SparseSet (any history), views, the integer linear propagators and the validation decision table; the remaining API surface is covered by the panic-capturing oracle (in-process catch_unwind plus isolated child processes for hangs and aborts)",
+                            "in-range = |value| <= 10^6 for generated arguments; larger magnitudes are the `extreme` stream (recorded finding i32-overflow)"]},
     "C14": {"suites": [ENGINE, API], "assumptions": INT_ASSUME},
     "C15": {"suites": [{"name": "limits", "suite": "limits", "quick": ["--count", 120], "thorough": ["--count", 3000]},
                        {"name": "limits-deep", "suite": "limits-deep", "quick": ["--count", 4], "thorough": ["--count", 40]}],
